@@ -131,6 +131,12 @@ T = {
             'a child leaving a layer setUp / tearDown through sys.exit(n) (also 0), MemoryError or KeyboardInterrupt',
             'C07 quick: C07:fault-not-recorded|died (family unwind:*); C02 quick: C02:verdict',
             'MISSED at first (children only died by os._exit / signals); caught after deaths by SystemExit / MemoryError / KeyboardInterrupt from layer hooks were added to C07 and C02'),
+ 'C06-m1': ('C06', 'resume_tests retires finished worker threads only from the front of running_threads',
+            'more layers than N and a later-started child finishing while an earlier one is still running: its slot is not reused (finish order 2,3,1 with N=2 cannot happen)',
+            'C06 quick: C06:no-progress|finish-order (the TLC-feasible order [2,3,1] for k=3, N=2 times out)', 'caught at once'),
+ 'C06-m2': ('C06', 'spawn_layer_in_subprocess: result.done = True moved into the `if child is not None` clean-up',
+            'Popen raising OSError for one layer: done is never set for it and the output blocks of every later layer are dropped',
+            'C06 quick: C06:block-lost|spawn-failure', 'caught at once'),
 }
 
 
